@@ -13,7 +13,9 @@ CLAIMS = {
          'for operands in range is a three-line arithmetic argument, stated in DESIGN.md, not a machine step); B chroma rounding folded over every sum in '
          '[-16384,16383] against the sixteenth-position table, and the sum of exactly mv[0..3]; C MVD_TABLE (folded from const MIR) against the 64 code words of '
          'Table 14, HalfPel::from = floor(2x); D the three candidates selected in each of the 4 x 8 (block index, border class) cases incl. the neighbour block '
-         'indices; E median_of over all 13 weak orderings, component-wise for vectors; F zero candidates from intra / not-coded macroblocks.',
+         'indices; E median_of over all 13 weak orderings, component-wise for vectors; F zero candidates from intra / not-coded macroblocks; M mv_decode pairs predictor.x with differential.x and predictor.y with differential.y, the MotionVector conversions and addition keep the component order, '
+         'and vector k of a macroblock is mv_decode(picture, options, predict_candidate(.., k), MVD_k) (vectors 2..4 copies of vector 1 without four vectors); MB which bits are the differentials: '
+         'decode_motion_vector reads x then y with MVD_TABLE (UMV code only with PLUSPTYPE), decode_macroblock reads MVD for the inter types and MVD2-4 for the four-vector types of Table 9 (predicates folded over all types).',
     technique='if-conversion + canonical forms + decision-table comparison; constant folding over finite domains; const-table folding', ref='6/C12'),
  'C11': dict(
     text='Static, the whole quantizer x level domain at once: A the coefficient stored by inverse_rle has the canonical form of '
@@ -21,7 +23,8 @@ CLAIMS = {
          'B the interval reading shows no intermediate overflow for Q in [0,31], L in [-1024,1023] (found D3: i16 product, fixed) and both ranges are checked '
          'at their producers; W escape LEVEL width is 7/11 by one bit exactly under Sorenson version 1, else 8, RUN 6 bits; C IntraDc::from_u8 / into_level folded '
          'over all 256 codes; D the DQUANT code table and the update form clamp(q + dq, 1, 31); DQ that update tabulated with Rust cast / overflow semantics, casts as written, '
-         'over all 32 x 5 (quantizer, DQUANT) pairs. What the coefficient does to decoded samples is C02.',
+         'over all 32 x 5 (quantizer, DQUANT) pairs; narrowing / sign-changing casts whose operand range does not fit are obligations like overflows; MB the DQUANT code table, TCOEF against Table 16 and the '
+         'escape forms (8-bit LEVEL, Sorenson v1 7 / 11-bit by flag, 6-bit RUN, LAST) as decision tables of decode_dquant / decode_block. What the coefficient does to decoded samples is C02.',
     technique='def-use expression -> canonical-form equality against the written-out formula; interval abstract interpretation; constant folding of finite tables', ref='6/C11'),
  'C09': dict(
     text='Static, all 2^32 patterns x 12 strengths and all sizes: K1 the scalar kernel (helpers inlined, if-converted) has, for each of A,B,C,D, the same '
@@ -29,7 +32,8 @@ CLAIMS = {
          'kernel has that same canonical form (arithmetic shift and truncating division are distinct operators; found D10: shifts instead of divisions - fixed); '
          'G1/G2 from the def-use expressions of the kernel arguments: horizontal pass rows edge_y-2..edge_y+1 as A..D in vector chunks and scalar remainder alike, '
          'vertical pass columns 4..7 of `row[2..]` 8-sample chunks (= image columns 8m+6..8m+9) read, filtered and written back in place, vector octets and remainder '
-         'rows alike; DB1/DB2 edge positions and guards (edges only where all four samples exist); G3 copy, horizontal then vertical, length unchanged, input read-only. '
+         'rows alike; DB1/DB2 edge positions and guards (edges only where all four samples exist); G3 copy, horizontal then vertical, length unchanged, input read-only; '
+         'G4 the column transposition: lane k of extract_column / set_column is row k of the octet, for all 8 lanes, octet rows split at depths 1..8. '
          'Position independence holds by construction: the kernels receive only the four samples and the strength.',
     technique='if-conversion + canonical-form equality (kernel vs written-out Annex J; vector lanes vs scalar); def-use expression matching for edge geometry', ref='6/C09'),
  'C07': dict(
@@ -48,7 +52,7 @@ CLAIMS = {
     technique='abstract interpretation over MIR with checked contracts + structural mechanism rules; const-table folding', ref='6/C16'),
  'C01': dict(
     text='Static, all byte strings x both option bits x all histories (by induction over one call with field contracts): inventory of every MIR Assert '
-         'terminator (bounds, +-*<<>> overflow with overflow checks on, division/remainder by zero) and every panicking external call reachable from the 7 '
+         'terminator (bounds, +-*<<>> overflow with overflow checks on, division/remainder by zero), every narrowing / sign-changing integer cast whose operand range does not fit, and every panicking external call reachable from the 7 '
          'pub fns of H263State (405 sites in 172 functions); 383 are discharged by an interval / option-state / symbolic-bound abstract interpretation under '
          'a contracts table that is itself checked at every producer; the 22 relational ones must match the reviewed-safe table, each entry void unless its '
          'mechanism rules hold (M1 clamp provenance, M2/M3 clamped extents, M4 fast-path guard set, M5 reference dimensions, M7 macroblock-count bound, '
@@ -60,8 +64,8 @@ CLAIMS = {
     text='Static, all operation histories: decides the EFFECT DISCIPLINE of the bit reader, not the delivered bit values. A: bits_read is assigned only in '
          'skip_bits (dominated by the success of ensure_bits(n), adding exactly n), rollback and commit; buffer only grows in buffer_bytes and shrinks in commit; '
          'peek_bits/peek_signed_bits have bits_read outside their mod set. B/T4: look-ahead and transactions restore the checkpoint on exactly the right paths. '
-         'C: read_bits/read_signed_bits are peek(n) then skip(n) with one n. E: structural forms of realignment_bits, needed_bytes_for_bits, ensure_bits, commit, '
-         'rollback guard and two\'s-complement sign extension. F: start-code scan (17-bit window == 1, one bit per step, nearest first, bounded by realignment_bits). '
+         'C: read_bits/read_signed_bits are peek(n) then skip(n) with one n. E: realignment_bits tabulated over 0..4095, needed_bytes_for_bits = div_ceil(sat_sub(n, sat_sub(8 len, pos)), 8), ensure_bits, commit (drain pos/8 bytes, keep pos mod 8: tabulated, drain first), '
+         'rollback guard (tabulated on a grid) and two\'s-complement sign extension. F: start-code scan (17-bit window == 1, one bit per step, nearest first, bounded by realignment_bits). '
          'G: VLC walk consumes one bit per step and all 6 tables are acyclic/in range/fully reachable (folded from const MIR). NOT decided: MSB-first assembly in '
          'the peek_bits byte loop; exactly-once delivery as a history property follows from A-G only under that assumption.',
     technique='mod/ref effect analysis, dominance/control-dependence rules, def-use expression pattern matching, const-table folding', ref='6/C14'),
@@ -69,7 +73,7 @@ CLAIMS = {
     text='Static, all inputs: where the reader stands after a successful decode is decided on the MIR of the decode closure. M7 the macroblock loop has '
          'an exit, dominating the macroblock parse, that fires when len(macroblock vector) >= mb_per_line*mb_height (found D1: absent; fixed); RS the '
          'resynchronisation probe decode_gob / decode_picture are union transactions whose Ok(None) arm leaves the loop without consuming, only outside '
-         'Sorenson mode; T7/T4 a failed macroblock or block parse consumes nothing; CM exactly one commit(), after the loop, on every Ok path, with no '
+         'Sorenson mode (is_sorenson() = decoder_options.contains(SORENSON_SPARK_BITSTREAM)); T7/T4 a failed macroblock or block parse consumes nothing; CM exactly one commit(), after the loop, on every Ok path, with no '
          'reader movement between loop exit and commit; and what commit() and read_bits() do to the position (C14 E: commit = drain(0..pos/8); pos %= 8, C14 C: read = peek + skip) '
          're-run here. Hence on success the position is the end of the last macroblock and padding is never read.',
     technique='loop/dominance/control-dependence rules with structural expression matching over MIR; mod/ref effects', ref='6/C15'),
@@ -79,7 +83,7 @@ CLAIMS = {
          'of the decode closure: last_picture := Some(TR) always, reference_picture := Some(TR) exactly under !is_disposable, := None only for I '
          'pictures and before the Some-assignment, insert(TR, picture) always, TR = the stored header\'s temporal_reference; R3 macroblock syntax '
          'per picture type (found D6, fixed); R4 TR-key aliasing between a disposable picture and the reference (D7: known finding, not repaired); '
-         'R5 who-may-write the three fields + structure of cleanup_buffers; R6 is_disposable folded over all 9 variants, Sorenson code 2. '
+         'R5 who-may-write the three fields + structure of cleanup_buffers; R6 is_disposable folded over all 9 variants, Sorenson code 2; R7 cleanup_buffers() runs after every state update of the call (no update reachable after it); R8 a new decoder has no last / reference picture and an empty store. '
          'Rejected pictures changing nothing is C05. Pixel-level consequences follow from C03.',
     technique='control-dependence / dominance rules, def-use tracing, mod/ref effects and conditional constant propagation over MIR', ref='6/C04'),
  'C05': dict(
@@ -98,8 +102,9 @@ CLAIMS = {
          'origin + (8(k&1), 8(k>>1)) (chroma origin/2), origin = ((n mod mbpl)16, (n div mbpl)16), mbpl = ceil(w/16) tabulated over all u16 widths, with the blocks-per-line '
          'idct_channel later uses with that array, that plane\'s samples and row length; level arrays 4 mbpl mbh / mbpl mbh; inverse_rle\'s block index; H quantizer tracking '
          '(clamp(q + dquant, 1, 31) once per coded macroblock before its six blocks); and re-run on this tree: dequantisation form + INTRADC mapping (C11 A, C), the IDCT '
-         'clauses (C10 A, B, C, E). Plane allocation is C13 P.',
-    technique='const-table folding; call-site agreement over loop-index-normalised def-use terms (polynomial normal form, closed forms tabulated over the full u16 domain); dominance for update-before-use', ref='6/C02'),
+         'clauses (C10 A, B, C, E); '
+         'MB the macroblock / block layer syntax: the VLC tables TCOEF, MCBPC (I-pictures) and CBPY folded from const MIR and compared as code word -> event maps with Tables 16, 7 and 13 of H.263, the Table 9 type predicates folded over all six types, and the decision tables of decode_macroblock, decode_dquant and decode_block (consuming reads with table / width, presence condition and order; every field of the result; the coefficient appended per event; LAST ending the loop; Sorenson v1 escape widths) compared as Boolean functions with the syntax of 5.3 / 5.4; Plane allocation is C13 P.',
+    technique='const-table folding; call-site agreement over loop-index-normalised def-use terms (polynomial normal form, closed forms tabulated over the full u16 domain with Rust integer semantics); dominance for update-before-use; decision-table extraction + semantic DNF comparison for the macroblock / block syntax', ref='6/C02'),
  'C03': dict(
     text='PARTIAL BY DESIGN: end-to-end equality of decoded P pictures with the H.263 reconstruction over all reference pictures is NOT decided statically. Decided are the '
          'structural conditions of the mechanism list, each necessary: S read_sample clamps to the nearest edge sample; L lerp = (a+b+1) div 2 (tabulated over all 65536 pairs), '
@@ -108,7 +113,8 @@ CLAIMS = {
          'excludes clamping; G the six gather_block call sites (vector k at block offset k, chroma vector = average_sum_of_mvs of the four, Cb<-Cb, Cr<-Cr, row lengths of the '
          'plane read, only for inter macroblocks); N every use of the reference goes through ok_or(..)?; U not-coded macroblock = Inter + zero vectors + no residual, early end '
          'filled with Inter / zero vectors, gather after the macroblock loop and before the IDCT; and, re-run on this tree: vector reconstruction, chroma rounding, candidate '
-         'table, median, zero neighbours (C12 A, B, D, E, F) and the residual-add form of every IDCT arm (C10 C).',
+         'table, median, zero neighbours (C12 A, B, D, E, F) and the residual-add form of every IDCT arm (C10 C); MB the macroblock / block layer syntax of an inter macroblock: COD, MCBPC against Table 8, '
+         'CBPY against Table 13 and complemented for inter types, DQUANT / MVD / MVD2-4 presence by the Table 9 predicates (folded over all types), MVD x then y, TCOEF against Table 16 and the escape forms, as decision tables compared with the syntax of 5.3 / 5.4.',
     technique='loop-index-normalised def-use terms vs written-out forms; path conditions (bit-slice DNF) for form selection; folding over finite domains; control-dependence guards; dominance / reachability for order', ref='6/C03'),
  'C06': dict(
     text='Static, every combination of header field values at once: each of the 15 header sub-parsers and decode_picture is abstracted from MIR into a decision '
@@ -119,13 +125,13 @@ CLAIMS = {
          'picture-type codes, CPFMT/EPAR/CPCFC/ETR/UUI/ELNUM/RPSMF/TRPI/BCI/TRB/DBQUANT fields, Sorenson size and type codes, the PEI loop shape (L), which read '
          'feeds which Picture field (found D8 PTYPE bit-9 polarity and D9 9-bit PHI: fixed). I: the inherited option sets; B: flag constants disjoint; '
          'H: DecodedPicture stores the parsed header and the format in force unmodified, sizes its planes from it, nobody else writes them; S: standard format sizes. '
-         'Not decided: which of the two SSS bits is RECTANGULAR_SLICES; that read_bits returns MSB-first integers is C04/C05/C14 territory.',
+         'RPRP is present exactly in RPR mode or when a previous picture exists whose format differs (|p| p.format != format checked). Not decided: which of the two SSS bits is RECTANGULAR_SLICES; that read_bits returns MSB-first integers is C04/C05/C14 territory.',
     technique='decision-table extraction from MIR (path conditions in a bit-slice domain, reaching definitions, set-insertion model of |=) + semantic DNF comparison with a written-out specification table; who-may-write effect rule; const folding', ref='6/C06'),
  'C10': dict(
     text='PARTIAL BY DESIGN: the Annex A error statistics (peak error 1, mean-square and mean error bounds over 60 000 random blocks) quantify over f32 rounding and are '
          'NOT decided - no static argument in reach bounds them. Decided are the structural conditions the accuracy rests on, each a necessary condition whose breakage '
          'changes decoded samples: A BASIS_TABLE (folded from const MIR) against c(u)cos((2i+1)u pi/16) within 4e-6 at all 64 entries; B idct_1d is the sum over u of '
-         'input[u]*BASIS_TABLE[u][i] from zero; C all four arms of idct_channel store clamp(clamp(trunc(s*v + 0.5 signum v), -256, 255) + old, 0, 255) at sample '
+         'input[u]*BASIS_TABLE[u][i] from zero, and every return is dominated by the loop over all 8 outputs (the scratch row is reused across blocks); C all four arms of idct_channel store clamp(clamp(trunc(s*v + 0.5 signum v), -256, 255) + old, 0, 255) at sample '
          '(8bx+x, 8by+y) with x,y cropped to the plane, s = 1/4, B00/4, 1/8; Full = rows, transposition, columns; Zero stores nothing (all-zero -> unchanged); '
          'E the sparse shortcuts are selected only for blocks of their shape (sticky flags cleared exactly on a non-zero coefficient off the row / column) with the right payloads.',
     technique='const-table folding against a formula; loop-index-normalised def-use expressions compared with written-out forms; control-dependence guards of sticky flags', ref='6/C10'),
@@ -149,7 +155,8 @@ CLAIMS = {
     text='Static, all executions: no shared mutable state and no nondeterminism source exists in the three crates. S1 every static immutable+Freeze '
          '(lazy_static cells: pure constant initialiser), S2 zero unsafe/extern (HIR walk), S3 interprocedural mod/ref summaries show no static is written, '
          'S4 denylist over every external call site (HashMap: keyed access only; time/env/rand/thread-id/atomics/cells/raw memory/ptr-to-int), '
-         'S5 transitive field walk: per-instance types own their data. Positive controls on a fixture crate on every run.',
+         'S5 transitive field walk: per-instance types own their data; C05.T6 the byte source is consumed only through read_exact into a 1-byte buffer whose byte is always kept, so the result cannot depend on how '
+         'a Read implementation splits the same byte sequence. Positive controls on a fixture crate on every run.',
     technique='effect (mod/ref) analysis + denylist lint over type-checked MIR/HIR; type-fact walk', ref='6/C17'),
 }
 
